@@ -326,6 +326,8 @@ func c20Case(seed int64, mode string, variant int) simCase {
 		Policies: []execution.ConcurrencyPolicy{execution.ConcurrencyPolicyAllow, execution.ConcurrencyPolicyEnqueue}, MaxConcurrency: 2,
 		Parallel: 30, MaxAttempts: 2, MaxRetryDelay: 3, PendingTimeout: []int64{0}, TTL: []int64{40}, Spread: 20, CronJCs: 2, CronStopAfter: 45 * time.Second, TemplateMeta: 25}
 	o.StoreYield = r.Intn(2) == 0
+	// an interrupted watch is a transient failure too: the cache is rebuilt from a list (tombstones, skipped versions)
+	o.Relist = r.Intn(2) == 0
 	return simCase{Opt: o, Prof: prof}
 }
 
